@@ -20,10 +20,12 @@ ASSUMPTIONS = [
     'names with documented special handling (print, serialize/serializable beyond the flag, ipython names, gtsam::Values::insert) are not in the alphabet',
 ]
 
-SCOPES = [[], ['a'], ['a', 'b'], ['a', 'b', 'c'], ['a', 'b2'], ['g', 'h'], ['z']]   # g holds nothing but the namespace h
+SCOPES = [[], ['a'], ['a', 'b'], ['a', 'b', 'c'], ['a', 'b2'], ['g', 'h'], ['z'], ['z', 'b'], ['a', 'b', 'a']]
+# g holds nothing but the namespace h; z::b shares its leaf name with a::b; a::b::a repeats the name of its
+# top-level ancestor; namespace a is opened a second time at the end of the file
 TOPS = {
     'root': [''], 'd1': ['', 'a'], 'd2': ['', 'a', 'b'], 'd3': ['', 'a', 'b', 'c'], 'sibling': ['', 'z'],
-    'nonmatch': ['', 'q'], 'partial': ['', 'a', 'q'], 'inner-name': ['', 'b'], 'grouping': ['', 'g'],
+    'nonmatch': ['', 'q'], 'partial': ['', 'a', 'q'], 'inner-name': ['', 'b'], 'grouping': ['', 'g'], 'sibling-d2': ['', 'z', 'b'],
 }
 
 
@@ -35,8 +37,8 @@ def q(path, name):
     return '::'.join(path + [name])
 
 
-def entity(kind, path, seed=0):
-    s = tag(path)
+def entity(kind, path, seed=0, tag_=None):
+    s = tag_ or tag(path)
     kws = refpy.PY_KEYWORDS_USABLE
     if kind == 'class_full':
         C = 'Cf' + s
@@ -79,7 +81,8 @@ def entity(kind, path, seed=0):
     if kind == 'func':
         return [D.func(single(T('int')), 'fn' + s, [arg(T('int'), 'a')]),
                 D.func(single(T('int')), 'fn' + s, [arg(T('double'), 'x'), arg(T('string', 1, '&'), 'name', '"n"')]),
-                D.func(single(T('void')), 'other' + s, []), D.func(single(T('void')), 'print', [arg(T('int'), 'v' + s)])]
+                D.func(single(T('void')), 'other' + s, []),
+                D.func(single(T('void')), 'print', [arg(T('int') if tag_ is None else T('double'), 'v' + s)])]
     if kind == 'tfunc':
         return [D.func(single(T('T')), 'tf' + s, [arg(T('T', 1, '&'), 'a'), arg(T('int'), 'k', '2')],
                        tpl=[D.tparam('T', [T('int'), T('ns::Pose')])])]
@@ -93,11 +96,14 @@ def entity(kind, path, seed=0):
         k = kws[rot:] + kws[:rot]
         return [D.cls(C + 'M', [D.method(single(T('int')), n, [arg(T('int'), 'a')]) for n in k]),
                 D.cls(C + 'S', [D.static(single(T('int')), n, []) for n in k])] + \
-               [D.func(single(T('void')), n, [arg(T('int'), 'v' + s)]) for n in k]
+               ([D.func(single(T('void')), n, [arg(T('int'), 'v' + s)]) for n in k] if tag_ is None else [])
     if kind == 'kwprops':
         C = 'Kp' + s
         return [D.cls(C, [D.prop(T('int'), n) for n in kws[:6]] + [D.enum('E', kws[6:10])]),
                 D.enum('Ek' + s, kws[10:14])]
+    if kind == 'values':
+        return [D.cls('Values', [D.ctor('Values'), D.method(single(T('void')), 'insert', [arg(T('size_t'), 'j'), arg(T('double'), 'vec')]),
+                                 D.method(single(T('void')), 'insert', [arg(T('size_t'), 'j'), arg(T('int'), 'number')])])] if tag_ is None else []
     if kind == 'serial':
         return [D.cls('Se' + s, [D.ctor('Se' + s), D.method(single(T('void')), 'serialize', []),
                                  D.method(single(T('int')), 'x', [])]),
@@ -108,7 +114,7 @@ def entity(kind, path, seed=0):
 # 'kwprops' (keyword-named properties/enumerators) is deliberately not in the alphabet: the statement's keyword
 # rule is anchored in method/function naming only, so neither escaping nor not escaping them is demanded.
 KINDS = ['class_full', 'tclass', 'typedef', 'enumclass', 'derived', 'enum', 'func', 'tfunc', 'var', 'fwdtypedef',
-         'kwnames', 'serial']
+         'kwnames', 'serial', 'values']
 
 
 def build(kinds, seed=0):
@@ -119,12 +125,23 @@ def build(kinds, seed=0):
             out += entity(k, path, seed)
         return out
     c = content(['a', 'b', 'c'])
-    b = content(['a', 'b']) + [D.ns('c', c)]
+    b = content(['a', 'b']) + [D.ns('c', c), D.ns('a', content(['a', 'b', 'a']))]
     b2 = content(['a', 'b2'])
     a = content(['a'])
     a = a[:2] + [D.ns('b', b)] + a[2:] + [D.ns('b2', b2)]
     g = content([])
-    return g[:1] + [D.ns('a', a)] + g[1:] + [D.ns('g', [D.ns('h', content(['g', 'h']))]), D.ns('z', content(['z']))]
+    zz = content(['z'])
+    return g[:1] + [D.ns('a', a)] + g[1:] + [D.ns('g', [D.ns('h', content(['g', 'h']))]),
+                                              D.ns('z', zz[:2] + [D.ns('b', content(['z', 'b']))] + zz[2:]),
+                                              D.ns('a', reopened(kinds, seed))]
+
+
+def reopened(kinds, seed):
+    """Second block of namespace a: the same entity kinds again under another tag."""
+    out = [D.include('sub/inc_a.h')]     # its path ends with the path of an earlier include
+    for k in kinds:
+        out += entity(k, ['a'], seed, tag_='_a2')
+    return out
 
 
 def ignore_sets(kinds):
@@ -232,7 +249,7 @@ def why(r, kinds):
     for pre, k in (('Cf_', 'class_full'), ('Tc_', 'tclass'), ('Tt', 'typedef'), ('Ce_', 'enumclass'), ('Ba_', 'derived'),
                    ('De_', 'derived'), ('Dn_', 'derived'), ('En_', 'enum'), ('Es_', 'enum'), ('fn_', 'func'), ('other_', 'func'), ('tf_', 'tfunc'),
                    ('kVal_', 'var'), ('counter_', 'var'), ('Fw', 'fwdtypedef'), ('Kw_', 'kwnames'), ('Kp_', 'kwprops'),
-                   ('Ek_', 'kwprops'), ('Se_', 'serial'), ('Sb_', 'serial')):
+                   ('Ek_', 'kwprops'), ('Se_', 'serial'), ('Sb_', 'serial'), ('Values', 'values')):
         if pre in name:
             lab = k
             break
@@ -258,7 +275,7 @@ def run(ctx):
             for ignk, ign in ignore_sets([k]).items():
                 for ser in (False, True):
                     add([k], topk, ignk, ign, ser)
-    pair_tops = list(TOPS) if ctx.thorough else ['root', 'd1', 'd2', 'partial']
+    pair_tops = list(TOPS) if ctx.thorough else ['root', 'd2']
     for k1, k2 in itertools.permutations(KINDS, 2):
         for topk in pair_tops:
             add([k1, k2], topk, 'none', [], False)
@@ -280,7 +297,7 @@ def run(ctx):
     return {
         'evaluations': len(cases),
         'distinct_nontrivial': len({(tuple(c['kinds']), c['top'], tuple(c['ignore']), c['ser']) for c in cases}),
-        'rule': '12 entity kinds placed in each of 7 namespace scopes (one under a namespace that holds nothing but a namespace); singles x 9 top-namespace settings x all '
+        'rule': '13 entity kinds placed in each of 7 namespace scopes (one under a namespace that holds nothing but a namespace); singles x 9 top-namespace settings x all '
                 'applicable ignore lists x serialization flag; all ordered pairs of kinds x %d top settings%s; '
                 'every (module, options) pair is distinct; registrations scanned and compared as a multiset with the '
                 'reference API' % (len(pair_tops), '; pairs x ignore lists; all unordered triples x 2 tops' if ctx.thorough else ''),
